@@ -40,7 +40,7 @@ func (r *Rec) Log(ev string, kv ...any) int {
 	e["t"] = int(time.Since(r.start) / time.Microsecond)
 	r.evs = append(r.evs, e)
 	switch ev {
-	case "BRecvPing", "BSendPong", "BPongQueued", "BSendPing", "BRecvPong", "Stall":
+	case "BRecvPing", "BSendPong", "BPongQueued", "BStrayPong", "BSendPing", "BRecvPong", "Stall":
 		r.idle++ // periodic background events: they do not count as activity for "quiesce"
 	}
 	n := len(r.evs)
